@@ -190,7 +190,7 @@ func (w *simWorld) exec(a Action) (outcome string) {
 		return "ok"
 	case a.Mod != nil:
 		cctx, write := w.ctx.CacheContext()
-		cctx = cctx.WithValue(st.TxHash, a.TxHash).WithValue(st.MsgIndex, int64(0))
+		cctx = cctx.WithValue(st.TxHash, a.TxHash).WithValue(st.MsgIndex, int64(0)).WithValue(subspaceKey{}, w.app.GetSubspace(st.ModuleName))
 		if err := a.Mod(cctx, w.mk); err != nil {
 			return "error"
 		}
